@@ -216,6 +216,54 @@ def run(ctx) -> None:
     rep.floor("C07.R4", spawns, 2)
     # component contexts are entered with async with in the starter
     include_rules(ctx, "c12", "C07.R4", only=("C12.R6",))
+    # nothing on the startup path may be shielded from cancellation: a timeout / a sibling's
+    # failure could not stop it ("no startup work continues afterwards")
+    shielded = []
+    # the startup path: what start_component reaches through calls, spawns, context-manager
+    # entries and nested functions - but not the teardown side (__aexit__ / __exit__ and the
+    # callbacks they run), where shielding is legitimate
+    seen: dict = {}
+    TEARDOWN_REGISTRATION = {"callback", "push", "push_async_callback", "push_async_exit", "add_teardown_callback"}
+    work = [SC]
+    # what a component's start() calls to start work that belongs to the startup
+    for nm_ in ("start_service_task", "start_background_task_factory"):
+        m_ = ctx.p.method(an.Context, nm_)
+        if m_ is not None:
+            work.append(m_)
+    while work:
+        f = work.pop()
+        if id(f) in seen:
+            continue
+        seen[id(f)] = f
+        for call, c in a.func_calls(f):
+            if call_name(call) in TEARDOWN_REGISTRATION:
+                continue
+            tg_ = None
+            if c.kind in ("func", "method") and getattr(c, "func", None) is not None:
+                tg_ = [c.func]
+            elif c.kind == "class" and c.cls is not None:
+                tg_ = [m for nm in ("__init__", "__post_init__", "__aenter__", "__enter__") for m in [ctx.p.method(c.cls, nm)] if m is not None]
+            for t_ in tg_ or []:
+                if t_.name not in ("__aexit__", "__exit__"):
+                    work.append(t_)
+            # function values handed to a spawn / call (tg.start_soon(f, ...), partial(f, ...))
+            for arg in list(call.args) + [k.value for k in call.keywords]:
+                if isinstance(arg, (ast.Name, ast.Attribute)):
+                    t2 = a.r.resolve_call(f, ast.Call(func=arg, args=[], keywords=[]))
+                    if t2.kind in ("func", "method") and getattr(t2, "func", None) is not None and t2.func.name not in ("__aexit__", "__exit__"):
+                        work.append(t2.func)
+    startup_funcs = list(seen.values())
+    rep.extra["startup_path_functions"] = sorted(f.qualname for f in startup_funcs)
+    for f in startup_funcs:
+        for n in walk_own(f.node):
+            if isinstance(n, ast.Call) and any(k.arg == "shield" and not (isinstance(k.value, ast.Constant) and k.value.value is False) for k in n.keywords):
+                shielded.append((f, n))
+            elif isinstance(n, ast.Assign) and any(isinstance(t, ast.Attribute) and t.attr == "shield" for t in n.targets) and not (isinstance(n.value, ast.Constant) and n.value.value is False):
+                shielded.append((f, n))
+    for f, n in shielded:
+        rep.violate("C07.R4", f, n, "a cancel scope is shielded: work started through it cannot be stopped by the startup timeout or by a sibling's failure, so startup work continues (or start_component does not return) after the error")
+    if not shielded:
+        rep.hold("C07.R4", starter, None, f"no shielded cancel scope in the {len(startup_funcs)} functions of the startup path", nontrivial=False)
 
     # ------------------------------------------------------------------ R5 watchdog
     sccfg = a.cfg(SC)
